@@ -313,9 +313,9 @@ def gen_call(rng, fam=None, names=NAMES):
     raise ValueError(fam)
 
 
-def corrupt(rng, call):
+def corrupt(rng, call, kinds=None):
     d = {k: (list(v) if isinstance(v, list) else (dict(v) if isinstance(v, dict) else v)) for k, v in call.items()}
-    c = rng.choice(["dim", "dropaxis", "dupaxis", "bracket", "kwdel", "kwbad", "kwfrac", "kwneg", "tensor", "char", "oob"])
+    c = rng.choice(kinds or ["dim", "dropaxis", "dupaxis", "bracket", "kwdel", "kwbad", "kwfrac", "kwneg", "tensor", "char", "oob"])
     desc = d["desc"]
     xs = d["tensors"]
     kw = d["kw"]
@@ -399,9 +399,20 @@ def gen_corpus(rng, n, pbad=0.25, pgraph=0.15, names=NAMES, padapt=0.06):
         if rng.random() < 0.15:
             c = anonymise(rng, c)
         if rng.random() < pbad:
-            c = corrupt(rng, c)
-            if rng.random() < 0.35:  # two independent problems in one call: which one is reported must not depend on iteration order
+            ints = sorted(k for k, v in c["kw"].items() if isinstance(v, int) and not isinstance(v, bool) and k != "shift")
+            if len(ints) >= 2 and rng.random() < 0.3:
+                # exactly two independent problems, both in size keywords and of different kinds (non-integral / negative / contradictory):
+                # which one is reported must not depend on iteration order
+                k1, k2 = rng.sample(ints, 2)
+                kinds = rng.sample(["frac", "neg", "bad"], 2)
+                c["kw"] = dict(c["kw"])
+                for k, kind in zip((k1, k2), kinds):
+                    v = c["kw"][k]
+                    c["kw"][k] = v + 0.5 if kind == "frac" else (-v - (1 if v == 0 else 0) if kind == "neg" else v + 1)
+            else:
                 c = corrupt(rng, c)
+                if rng.random() < 0.3:
+                    c = corrupt(rng, c)
         if rng.random() < 0.08 and c.get("_axes") and c["op"] not in ("solve_axes", "solve_shapes", "matches"):
             # a tensor factory (three signature classes) in place of the first tensor; all sizes by keyword so the call stays determinable
             nd = [j for j, t in enumerate(c["tensors"]) if "shape" in t]
